@@ -29,6 +29,39 @@ def literals(bs):
     return re.findall(rb"[ -~]{2,}", bytes(bs))
 
 
+def _format_parts(tmpl, fargs):
+    """Decode a `format_args!` template (rustc's compact encoding: 0xC0 = next argument with default formatting,
+    1..0x7F = literal of that many bytes, 0 = end) into [("name",) | ("lit", bytes) | ("?",)]; None when the encoding
+    is not understood (fail closed)."""
+    if tmpl is None:
+        return None
+    out, i, k = [], 0, 0
+    while i < len(tmpl):
+        c = tmpl[i]
+        if c == 0:
+            break
+        if c == 0xC0:
+            if k >= len(fargs):
+                return None
+            os_ = fargs[k]
+            k += 1
+            if os_ and all(o is not None and o.kind == "param" and o.data == 2 and not [p_ for p_ in o.proj if p_ != "deref"] for o in os_):
+                out.append(("name",))
+            elif os_ and len({o.data for o in os_ if o is not None and o.kind == "const" and isinstance(o.data, str)}) == 1 and all(o is not None and o.kind == "const" for o in os_):
+                out.append(("lit", os_[0].data.encode()))
+            else:
+                out.append(("?",))
+            i += 1
+        elif c < 0x80:
+            out.append(("lit", tmpl[i + 1:i + 1 + c]))
+            i += 1 + c
+        else:
+            return None
+    if k != len(fargs):
+        return None
+    return out
+
+
 def _check_own(ctx):
     prog = ctx.prog
     R = Roles(prog)
@@ -40,27 +73,35 @@ def _check_own(ctx):
         fmts = [(b, t) for b, t in fn.calls() if "fmt::Arguments" in (t.get("callee") or "") and t.get("from_expansion")]
         fmts = [(b, t) for b, t in fmts if any(m.endswith("format") for m in t.get("macros", []))]
         tmpl = None
-        arg_ok = False
+        parts = None
         for b, t in fmts:
-            for a in t["args"]:
-                for o in origins(prog, fn, a, at=b):
-                    if o.kind == "const" and isinstance(o.data, (bytes, tuple)):
-                        tmpl = bytes(o.data)
-                    if o.kind == "const" and isinstance(o.data, str):
-                        tmpl = o.data.encode()
-            leaves = [y for a in t["args"] for y in leaf_origins(prog, fn, a, at=b)]
-            # Argument::new_display(&name) is an opaque call: look one level into such calls
-            more = []
-            for y in leaves:
-                if y.kind == "call" and "fmt::rt::Argument" in (y.data.get("callee") or ""):
-                    more += leaf_origins(prog, fn, y.data["args"][0], at=y.block, terminal_only=True)
-            arg_ok = any(y.kind == "param" and y.data == 2 for y in leaves + more)
-        lits = literals(tmpl) if tmpl else []
-        ok = len(fmts) == 1 and len(lits) == 1 and lits[0].startswith(b".") and arg_ok and tmpl is not None and tmpl.index(lits[0]) > 0 and tmpl[0] >= 0x80
+            for o in origins(prog, fn, t["args"][0], at=b):
+                if o.kind == "const" and isinstance(o.data, (bytes, tuple)):
+                    tmpl = bytes(o.data)
+                if o.kind == "const" and isinstance(o.data, str):
+                    tmpl = o.data.encode()
+            # the arguments, in order: each `Argument::new_display(&x)` is looked into one level
+            fargs = []
+            for o in (origins(prog, fn, t["args"][1], at=b) if len(t["args"]) > 1 else []):
+                if o.kind == "agg" and o.data.get("agg") == "array":
+                    for op in o.data.get("ops", []):
+                        ys = leaf_origins(prog, fn, op, at=o.block)
+                        inner_ = []
+                        for y in ys:
+                            if y.kind == "call" and "fmt::rt::Argument" in (y.data.get("callee") or "") and (y.data.get("callee") or "").endswith("new_display"):
+                                inner_ += leaf_origins(prog, fn, y.data["args"][0], at=y.block, terminal_only=True)
+                            else:
+                                inner_.append(None)
+                        fargs.append(inner_)
+            parts = _format_parts(tmpl, fargs)
+        # file name = <map name parameter> then only constant text, which starts with '.'
+        suffix = b"".join(x[1] for x in parts[1:] if x[0] == "lit") if parts else b""
+        ok = len(fmts) == 1 and bool(parts) and parts[0] == ("name",) and len(parts) >= 2 and all(x[0] == "lit" for x in parts[1:]) \
+            and suffix.startswith(b".") and len(suffix) >= 2
         ctx.check(ok, "file-per-name-and-kind", kind + ":name",
-                  "the %s file name is not `<map name><constant suffix>` (template %r, name used: %s)" % (kind, tmpl, arg_ok), where=where(fn))
-        if lits:
-            suffixes[kind] = lits[0]
+                  "the %s file name is not `<map name><constant suffix>` (template %r, parts %s)" % (kind, tmpl, parts), where=where(fn))
+        if parts and len(suffix) >= 2:
+            suffixes[kind] = suffix
         # directory parameter + push + open that path
         pushes = [(b, t) for b, t in fn.calls() if (t.get("callee") or "").endswith("PathBuf::push")]
         opens = [(b, t) for b, t in fn.calls() if (t.get("callee") or "") == "std::fs::OpenOptions::open"]
